@@ -573,3 +573,71 @@ func FindLockCycle(edges map[string][]string, only map[string]bool) []string {
 	}
 	return nil
 }
+
+// LockLeak is a Lock/RLock after which some path reaches a function exit without the matching unlock.
+type LockLeak struct {
+	Lock  ssa.CallInstruction
+	Class string
+	Trace []int
+}
+
+// LockLeaks finds, in fn, lock acquisitions (Lock / RLock, not TryLock) that are not released on every path
+// to a function exit: neither by a deferred unlock of the same class registered in the function, nor by an
+// unlock call on the path.
+func LockLeaks(fn *ssa.Function) []LockLeak {
+	var out []LockLeak
+	deferred := map[string]bool{}
+	for _, c := range Calls(fn) {
+		if _, isDefer := c.(*ssa.Defer); !isDefer {
+			continue
+		}
+		kind, class, _ := LockOp(c)
+		if kind == "unlock" {
+			deferred["W|"+class] = true
+		}
+		if kind == "runlock" {
+			deferred["R|"+class] = true
+		}
+	}
+	for _, c := range Calls(fn) {
+		if _, isCall := c.(*ssa.Call); !isCall {
+			continue
+		}
+		kind, class, base := LockOp(c)
+		mode := ""
+		switch kind {
+		case "lock":
+			mode = "W"
+		case "rlock":
+			mode = "R"
+		default:
+			continue
+		}
+		if class == "" {
+			// local mutex variable: class by the variable
+			class = "local " + c.Common().Args[0].Name()
+		}
+		if deferred[mode+"|"+class] {
+			continue
+		}
+		want := "unlock"
+		if mode == "R" {
+			want = "runlock"
+		}
+		leak, tr := PathQuery{Avoid: func(in ssa.Instruction) bool {
+			u, ok := in.(ssa.CallInstruction)
+			if !ok {
+				return false
+			}
+			k2, c2, b2 := LockOp(u)
+			if c2 == "" && k2 != "" {
+				c2 = "local " + u.Common().Args[0].Name()
+			}
+			return k2 == want && c2 == class && (base == nil || b2 == nil || SameObject(base, b2))
+		}}.Reaches(c.Block(), InstrIndex(c)+1, IsExit)
+		if leak {
+			out = append(out, LockLeak{c, class, tr})
+		}
+	}
+	return out
+}
